@@ -29,7 +29,8 @@ ALLOWED = "aiocoap.error.UnparsableMessage"
 
 def option_type_hints(prog):
     ot = [c for c in prog.subclasses("aiocoap.optiontypes.OptionType") if c != "aiocoap.optiontypes.OptionType"]
-    return {("numbers.optionnumbers.OptionNumber.create_option", "option"): ot}, ot
+    # declared dynamic dispatch: the local bound from `self.format(self)` is an instance of a registered format class
+    return {("numbers.optionnumbers.OptionNumber.create_option", "=self.format"): ot}, ot
 
 
 def registered_formats(prog):
@@ -166,7 +167,9 @@ def _appends(fi, name):
     items = []
     for w in writes_to_name(fi.node, name):
         nid = cfg.loc1(w)
-        if isinstance(w, ast.Assign):
+        if isinstance(w, ast.Assign) and isinstance(w.value, ast.BinOp) and isinstance(w.value.op, ast.Add) and isinstance(w.value.left, ast.Name) and w.value.left.id == name:
+            items.append((nid, "+=", w.value.right, w))
+        elif isinstance(w, ast.Assign):
             items.append((nid, "=", w.value, w))
         elif isinstance(w, ast.AugAssign) and isinstance(w.op, ast.Add):
             items.append((nid, "+=", w.value, w))
